@@ -51,6 +51,8 @@ pub mod io {
             ensures *final(w) == *old(w), r.code() == Some(old(w).errno as i32), i32::MIN <= old(w).errno <= i32::MAX,
         { unimplemented!() }
         #[verifier::external_body]
+        pub fn from_raw_os_error(code: i32) -> (r: Error) ensures r.code() == Some(code) { unimplemented!() }
+        #[verifier::external_body]
         pub fn raw_os_error(&self) -> (r: Option<i32>) ensures r == self.code() { unimplemented!() }
         #[verifier::external_body]
         pub fn kind(&self) -> (r: ErrorKind) ensures r == self.spec_kind() { unimplemented!() }
@@ -59,6 +61,10 @@ pub mod io {
 
 pub mod libc {
     use super::*;
+    /// process credentials: values opaque (no contract depends on who runs xcp: whether a chown is permitted is the kernel's answer)
+    #[verifier::external_body] pub unsafe fn geteuid() -> (r: u32) { unimplemented!() }
+    #[verifier::external_body] pub unsafe fn getuid() -> (r: u32) { unimplemented!() }
+    #[verifier::external_body] pub unsafe fn getegid() -> (r: u32) { unimplemented!() }
     pub const EOPNOTSUPP: i32 = 95;
     pub const EINVAL: i32 = 22;
     pub const EXDEV: i32 = 18;
